@@ -8,6 +8,7 @@ import (
 	"sort"
 	"strconv"
 	"strings"
+	"time"
 
 	"github.com/go-openapi/strfmt"
 	"github.com/go-openapi/validate"
@@ -367,8 +368,15 @@ func (p *c11) Run(w *lib.Worker, idx int, r *lib.Rand) lib.Case {
 			if op.Kind == "spec" && k%6 != 0 {
 				continue
 			}
-			got := op.Run(true)
+			got, returned := runWithin(c11CallBudget, func() sut.Outcome { return op.Run(true) })
 			c.Evals++
+			if !returned {
+				// bounded progress: a follow-up call takes milliseconds (a specification a second or two); one which
+				// is still running after two minutes is waiting for something the aborted validation left held
+				c.Viol = &lib.Violation{What: fmt.Sprintf("after a recovered panic (format checker invocation k=%d of %d, inside a %s call) follow-up call %d (%s) did not return within %v; its fresh-process outcome is %s", k, K, wl[panicAt].Kind, i, op.Kind, c11CallBudget, short(ref[i].Key())),
+					Detail: map[string]any{"workload_call_which_panicked": wl[panicAt].Render(), "injection_point_k": k, "K": K, "follow_up_call_index": i, "follow_up_call": op.Render(), "fresh_process_reference": ref[i]}}
+				return c
+			}
 			witness := map[string]any{
 				"workload_call_which_panicked": wl[panicAt].Render(), "injection_point_k": k, "K": K, "poison": k%2 == 0,
 				"follow_up_call_index": i, "follow_up_call": op.Render(), "outcome_after_recovered_panic": got, "fresh_process_reference": ref[i],
@@ -458,4 +466,19 @@ func (p *c11) Finish(a *lib.Aggregate) (broken []string) {
 	}
 	a.Extra["injection_points_enumerated"] = a.Nums["injection_points_enumerated"]
 	return
+}
+
+// c11CallBudget bounds one follow-up call (wall clock, generous: three to five orders of magnitude above its cost).
+const c11CallBudget = 2 * time.Minute
+
+// runWithin runs f in its own goroutine and gives up waiting after d (the goroutine is left behind: the case ends).
+func runWithin(d time.Duration, f func() sut.Outcome) (sut.Outcome, bool) {
+	ch := make(chan sut.Outcome, 1)
+	go func() { ch <- f() }()
+	select {
+	case o := <-ch:
+		return o, true
+	case <-time.After(d):
+		return sut.Outcome{}, false
+	}
 }
